@@ -519,6 +519,37 @@ func c18Registry(c *Ctx) {
 		return
 	}
 	r.Floor("O-2", "registry stores", n, 4)
+	// stores made inside function literals (a factory handed to the
+	// get-or-create helper, say) are outside the lock analysis of the
+	// methods: each must itself sit behind a failed look-up of its own key
+	// in the same map, otherwise it can replace a series that exists
+	for _, fn := range c.P.RepoFuncs() {
+		if fn.Parent() == nil {
+			continue
+		}
+		if fpk := c.P.PkgOfFunc(fn); fpk == nil || fpk.PkgPath != metricsPkg {
+			continue
+		}
+		cd := ssau.ControlDeps(fn)
+		ord := newOrdinal()
+		ssau.ForEachInstr(fn, false, func(in ssa.Instruction) {
+			mu, ok := in.(*ssa.MapUpdate)
+			if !ok || !c11IsSeriesMap(mu.Map.Type()) {
+				return
+			}
+			good := false
+			for _, d := range ssau.TransitiveControlDeps(cd, mu.Block()) {
+				ex, ok := d.If().Cond.(*ssa.Extract)
+				if !ok || ex.Index != 1 || d.Then {
+					continue
+				}
+				if lk, ok := ex.Tuple.(*ssa.Lookup); ok && lk.X == mu.Map && lk.Index == mu.Key {
+					good = true
+				}
+			}
+			r.Check(good, "O-2", ord.next(load.FuncKey(fn)+"#store-in-a-function-literal"), c.P.Pos(mu.Pos()), "the store follows a failed look-up of the same key in the same map", "a function literal stores into a series registry without having looked its key up first: a series that already exists under that key (created through another accessor) is replaced, and the events recorded on the old one are lost from the reports")
+		})
+	}
 }
 
 func c18Counting(c *Ctx, sx *symx.Ctx) {
